@@ -37,6 +37,9 @@ type c11Case struct {
 	Muts   []c11Mut `json:"muts,omitempty"`
 	Raw    evid.B   `json:"raw,omitempty"` // regioninfo / decompress / raw-frame input
 	UseRaw bool     `json:"use_raw,omitempty"`
+	// Expired: indices of calls of a multi whose context had ended before the request
+	// was built (the client leaves them out of the request)
+	Expired []int `json:"expired,omitempty"`
 }
 
 var hostile = []int64{0, 1, 2, 9, 10, 12, 13, 14, 255, 256, 65535, 65536, 0x7fffffff, 0x80000000, 0xffffffff, -1, -2}
@@ -205,12 +208,26 @@ func c11Run(c c11Case) (out Outcome) {
 		reg2 := region.NewInfo(2, nil, []byte("t"), []byte("t,m,2"), []byte("m"), nil)
 		mr := &pb.MultiResponse{}
 		rars := []*pb.RegionActionResult{{}, {}}
+		expired := map[int]bool{}
+		for _, e := range c.Expired {
+			expired[e] = true
+		}
 		for i, n := range counts {
 			var call hrpc.Call
+			cctx := ctx
+			if expired[i] {
+				dead, cancel := context.WithCancel(ctx)
+				cancel()
+				cctx = dead
+			}
 			if i%2 == 0 {
-				call = mkGet()
+				g, _ := hrpc.NewGet(cctx, []byte("t"), []byte("r"))
+				g.SetRegion(reg)
+				call = g
 			} else {
-				call = mkPut()
+				p, _ := hrpc.NewApp(cctx, []byte("t"), []byte("r"), map[string]map[string][]byte{"f": {"q": []byte("v")}})
+				p.SetRegion(reg)
+				call = p
 			}
 			if i%3 == 2 {
 				call.SetRegion(reg2)
@@ -367,8 +384,14 @@ func c11Run(c c11Case) (out Outcome) {
 		// the frame was accepted as the response to our call: every addressed call must
 		// have been told something
 		if res.Leftover == 0 {
+			skip := map[int]bool{}
+			if asMulti {
+				for _, e := range c.Expired {
+					skip[e] = true
+				}
+			}
 			for i := range calls {
-				if got[i] == 0 {
+				if got[i] == 0 && !skip[i] {
 					return viol("call-left-without-result", "%s: the frame was consumed as the response to call id 7 (receive returned %v) but call %d of %d got neither a result nor an error", c.Target, res.Err, i, len(calls))
 				}
 			}
@@ -567,6 +590,12 @@ func c11Gen(t *rapid.T) c11Case {
 		c.NCells = append(c.NCells, rapid.IntRange(0, 3).Draw(t, "ncells"))
 	}
 	c.Snappy = (c.Target[:2] == "rx") && rapid.IntRange(0, 3).Draw(t, "snappy") == 0
+	if c.Target == "rx-multi" && nres > 0 && rapid.IntRange(0, 2).Draw(t, "expired") == 0 {
+		ne := rapid.IntRange(1, 2).Draw(t, "nexpired")
+		for i := 0; i < ne; i++ {
+			c.Expired = append(c.Expired, rapid.IntRange(0, nres-1).Draw(t, "expiredidx"))
+		}
+	}
 	if c.Target[:2] == "rx" && rapid.IntRange(0, 19).Draw(t, "raw") == 0 {
 		c.UseRaw = true
 		c.Raw = evid.B(rapid.SliceOfN(rapid.Byte(), 0, 40).Draw(t, "rawframe"))
